@@ -10,7 +10,7 @@ From LC.CP Require Lexer LexSpec LexEquiv.
 From LC.Base Require Utf8.
 From LC.V2 Require Tok TokTables Reader SSet Match Normalize TokWF ScoringProof Load NormProof NormTables.
 From LC.Base Require Float64 Sort.
-From LC.V1 Require Tok1 Matcher1.
+From LC.V1 Require Tok1 Matcher1 Join1.
 
 Extraction Blacklist List String Int.
 
@@ -25,5 +25,5 @@ Separate Extraction
   SetImpl.run SetImpl.step
   Heap.run Heap.empty Heap.lookup Heap.arr Heap.idx
   Lexer.parse Lexer.original Lexer.repaired Lexer.chunks LexSpec.spec_parse LexEquiv.lang_wf'
-  Load.load_file Matcher1.exact_span Tok1.tokenize Tok1.candidates_from_sorted Tok1.target_range SSet.compute_q SSet.get_matched_ranges ScoringProof.src ScoringProof.dst TokWF.tables_wf NormProof.flushes_ok NormProof.canon_resid NormTables.norm_tables_wf NormTables.tables_bound Normalize.normalize Match.match_tokens Match.score Float64.of_bits Float64.to_bits Float64.of_Z TokTables.in_ranges
+  Load.load_file Matcher1.exact_span Tok1.tokenize Tok1.candidates_from_sorted Tok1.target_range Join1.hash_ranges Join1.node_ranges Join1.pairingb Join1.sorted_lexb SSet.compute_q SSet.get_matched_ranges ScoringProof.src ScoringProof.dst TokWF.tables_wf NormProof.flushes_ok NormProof.canon_resid NormTables.norm_tables_wf NormTables.tables_bound Normalize.normalize Match.match_tokens Match.score Float64.of_bits Float64.to_bits Float64.of_Z TokTables.in_ranges
   Reader.tokenize_stream Tok.tokenize_whole Tok.tokenize_runes TokTables.mk_tables Utf8.decode_all Utf8.encode_all.
